@@ -316,6 +316,14 @@ class TreeLikelihoodModel(CallableModel):
             self.partials, self.weights = site_pattern.compute_tips_partials(
                 use_ambiguities
             )
+        # tip data come in the order of the taxa but are addressed by leaf index, which
+        # is another order when the tree was parsed with use_postorder_indices
+        tree = getattr(tree_model, 'tree', None)
+        if tree is not None:
+            position = {name: idx for idx, name in enumerate(tree_model.taxa)}
+            tips = list(self.partials)
+            for node in tree.leaf_node_iter():
+                self.partials[node.index] = tips[position[node.taxon.label]]
         self.partials.extend([None] * (len(tree_model.taxa) - 1))
 
     def _call(self, *args, **kwargs) -> torch.Tensor:
